@@ -12,7 +12,7 @@ TARGETS = ['BC.Props.C02']
 PROP_FILES = ['BC/Props/C02.lean', 'BC/Lemmas/Loop.lean', 'BC/Lemmas/C02.lean']
 # source ties: function bodies regenerated from the Python source by translate/t_funcs.py, proved equal to the model functions
 SRC = {'module': 'BC.Props.C02Src', 'file': 'BC/Props/C02Src.lean',
-       'theorems': ['C02_src_zero_error', 'C02_src_zero_correct', 'C02_src_zero_loop_step', 'C02_src_zero_loop_end', 'C02_src_zero_angle', 'C02_src_zero_start', 'C02_src_zero_result', 'C02_src_zero_miss']}
+       'theorems': ['C02_src_zero_error', 'C02_src_zero_correct', 'C02_src_zero_loop_step', 'C02_src_zero_loop_end', 'C02_src_zero_angle', 'C02_src_zero_start', 'C02_src_zero_result', 'C02_src_zero_miss', 'C02_src_stored_zero']}
 THEOREMS = ['C02_returned_meets_accuracy', 'C02_error_otherwise', 'C02_converges_partial', 'C02_failed_zero_leaves_weapon', 'C02_zero_angle_def',
             'C02_hits_sight_line', 'C02_starts_on_sight_line', 'C02_independent_of_stored_zero']
 STATEMENTS = {
